@@ -90,7 +90,8 @@ def run(want, targets=('sse', 'avx', 'mmx'), flagsets=None, fp_data=False, only_
     optable = {o['name']: o for o in ops}
     dflt = family.default_flags(exe)
     jobs = []
-    info = dict(compiled={}, refused={}, abnormal=[])
+    static_extra = []
+    info = dict(compiled={}, refused={}, abnormal=[], static_isa=dict(programs=0, instructions=0, undecodable=0))
     for target in targets:
         fam = [(n, x) for n, x in select(family.family(ops, target), t, target) if keep(n, optable)]
         if only_float:
@@ -115,6 +116,11 @@ def run(want, targets=('sse', 'avx', 'mmx'), flagsets=None, fp_data=False, only_
                 changed = set(r['name'] for r in rall if (r.get('orccode') or {}).get('code') and (r.get('orccode') or {}).get('code') != base_code.get(r['name']))
                 sampled = set(e[0] for e in fam_s)
                 fam_s = [e for e in fam_all if e[0] in changed or e[0] in sampled]
+                # programs whose bytes did NOT change under the reduced flag set are exactly the ones that may still carry an
+                # instruction of a feature that was taken away: scan every emitted instruction of each of them (static, whole
+                # family) against the ISA classes this flag set allows.  The path-wise check below covers fam_s.
+                static_extra += static_isa_scan([r for r in rall if (r.get('orccode') or {}).get('code') and r['name'] not in changed and r['name'] not in sampled],
+                                                target, fl, info)
             res = family.compile_family(exe, target, fl, recipes=fam_s, cwd=b.dir)
             ok = [r for r in res if r.get('orccode') and r['orccode'].get('code')]
             info['compiled'][(target, label)] = len(ok)
@@ -136,12 +142,45 @@ def run(want, targets=('sse', 'avx', 'mmx'), flagsets=None, fp_data=False, only_
                 jobs.append((p, target, bounds, tuple(want), fp_data))
     t0 = time.time()
     results = run_jobs(jobs, optable, b.dir, per_job_timeout=job_timeout or (240 if t == 'quick' else 1800))
+    results += static_extra
     info['wall'] = time.time() - t0
     info['jobs'] = len(jobs)
     info['exe'] = exe
     info['build'] = b
     info['optable'] = optable
     return results, info
+
+
+def static_isa_scan(progs, target, flags, info):
+    """Decode every emitted instruction of each program and compare its ISA class with what `flags` allows.
+    Returns result records (same shape as check_program's) for the programs that carry a disallowed instruction."""
+    from engines.x86sym import decoder
+    allowed = x86check.allowed_isa(target, flags)
+    out = []
+    codes = [bytes.fromhex(p['orccode']['code']) for p in progs]
+    try:
+        dec = decoder.decode_many(codes)
+    except Exception:
+        dec = []
+        for c in codes:
+            try:
+                dec.append(decoder.decode(c))
+            except Exception:
+                dec.append(None)
+    for p, ins in zip(progs, dec):
+        if ins is None:
+            info['static_isa']['undecodable'] += 1
+            continue
+        info['static_isa']['programs'] += 1
+        info['static_isa']['instructions'] += len(ins)
+        bad = [i for i in ins if i.isa not in allowed]
+        if bad:
+            i = bad[0]
+            msg = 'instruction %s %s (ISA class %s) emitted with flags %#x on %s [static scan of unchanged code]' % (i.mnem, ','.join(i.ops), i.isa, flags, target)
+            out.append(dict(name=p['name'], target=target, flags=flags, status='ok', paths=1, queries=0, solver_s=0.0,
+                            viol={'C01': [], 'C03': [], 'C10': [], 'C11': [msg]}, inconclusive=[], notes=['static ISA scan'], counterexamples=[],
+                            wall=0.0, cached=False, recipe=p.get('recipe')))
+    return out
 
 
 def run_jobs(jobs, optable, scratch, per_job_timeout):
